@@ -28,6 +28,15 @@ def h_defs_dagStoreImpl_ensureDirExist : Nat := 0x48b8b553420bc2d7
 /-- hash of the normalised skeleton of checkExtension (internal/persistence/local/dag_store.go) -/
 def h_defs__checkExtension : Nat := 0xaf2889c5c023fc4f
 
+/-- hash of the normalised skeleton of AddYamlExtension (internal/util/utils.go) -/
+def h_defs_AddYamlExtension : Nat := 0xe4474089b67ae684
+
+/-- hash of the normalised skeleton of find (internal/persistence/local/dag_store.go) -/
+def h_defs__find : Nat := 0x45cfd4784e75ff31
+
+/-- hash of the normalised skeleton of resolve (internal/persistence/local/dag_store.go) -/
+def h_defs_dagStoreImpl_resolve : Nat := 0x9fc8d6d457d7027b
+
 /-- hash of the normalised skeleton of CreateDAG (internal/client/client.go) -/
 def h_defs_client_CreateDAG : Nat := 0x38f9312946999665
 
@@ -41,7 +50,7 @@ def h_defs_client_UpdateDAG : Nat := 0xb9f6821fac177f33
 def h_defs_client_DeleteDAG : Nat := 0x5b3ced16f8054715
 
 /-- hash of the normalised skeleton of * (internal/persistence/local/dag_store.go) -/
-def h_rest_defs_persistence_local_dag_store_go : Nat := 0x1297584bdd286d4c
+def h_rest_defs_persistence_local_dag_store_go : Nat := 0x589d0261292c1a48
 
 /-- hash of the normalised skeleton of * (internal/client/client.go) -/
 def h_rest_defs_client_client_go : Nat := 0x1a3c5e62adde9845
